@@ -232,7 +232,7 @@ func runAgentTable(args []string) {
 								for _, i1 := range invalids {
 									n++
 									// the dimensions that do not interact with the peers are cycled through
-									target := []int{0, 1, 3, 5}[n%4]
+									target := []int{0, 1, 3, 5, 2, 26, 40, 1000}[n%8] // small targets and ones far above anything a pool returns
 									poolcase := []string{"ok", "ok", "ok", "updateerr", "peererr-nohosts", "peererr-internal", "peererr-other", "nopeers"}[(n/4)%8]
 									if nodekind != "geth-light" && n%3 != 0 {
 										continue // the full table on one node kind, a third of it on the others
